@@ -6,7 +6,7 @@ import random, time
 from collections import Counter
 from fractions import Fraction
 from rv import gen, oracles as O
-from rv.harness import (Algos, monitored_call, present, exact, plain, cg_config, max_n, CaseTimeout)
+from rv.harness import (Algos, monitored_call, present, exact, plain, cg_config, max_n, CaseTimeout, value_of)
 
 _A = None
 
